@@ -16,7 +16,18 @@ LEVELS = {'C01': 'proof', 'C16': 'proof'}
 def run_property(pid, repo, tier, seed=0):
     mod = importlib.import_module(f'sa.props.{pid.lower()}')
     ctx = report.Ctx(pid, repo, tier, seed)
-    mod.run(ctx)
+    try:
+        mod.run(ctx)
+    except AnalysisError as e:
+        # an anchor of a later rule is gone.  If an earlier rule has already refuted something that is not a listed finding, that
+        # verdict stands and the unfinished part is reported as a note; otherwise the run is an analysis error.
+        if not report.new_refutations(ctx):
+            raise
+        ctx.stopped_early = str(e)
+    except Exception as e:
+        if not report.new_refutations(ctx):
+            raise
+        ctx.stopped_early = f'internal error after the verdict: {type(e).__name__}: {e}'
     return ctx, mod
 
 
